@@ -13,7 +13,7 @@ conf=open('/verif/work/confirm-%s.log'%ID).read()
 chk=open('/verif/work/seedcheck-%s.log'%ID).read().strip().splitlines()
 head=subprocess.run(['git','-C','/repo','log','--format=%h','-n1'],capture_output=True,text=True).stdout.strip()
 m['confirmed_by_me']={"base_commit":head+" (repo HEAD when the change was made)",
- "ran":[l for l in conf.splitlines() if l.startswith(('BUILD','DEMO','SUITE','demo cmd'))]+["VERIF_REPO=<worktree with patch> tools/devcheck.sh %s quick : %s"%(ID,chk[-1][:200])],
+ "ran":[l for l in conf.splitlines() if l.startswith(('BUILD','DEMO','SUITE','demo cmd'))]+["VERIF_REPO=<worktree with patch> tools/devcheck.sh %s quick : %s"%(ID.rstrip('b'),chk[-1][:200])],
  "check_output":[l.strip()[:300] for l in chk if l.strip().startswith('[')][:4],
  "caught_by":BY}
 json.dump(m,open('/verif/seeded/%s/meta.json'%ID,'w'),indent=1)
